@@ -7,6 +7,44 @@
 #include "common/vh.hpp"
 
 #include <fcppt/function_impl.hpp>
+#include <fcppt/make_cref.hpp>
+#include <fcppt/make_ref.hpp>
+#include <fcppt/reference_impl.hpp>
+#include <fcppt/cast/dynamic_fun.hpp>
+#include <fcppt/either/comparison.hpp>
+#include <fcppt/either/construct.hpp>
+#include <fcppt/either/error.hpp>
+#include <fcppt/either/error_from_optional.hpp>
+#include <fcppt/either/make_failure.hpp>
+#include <fcppt/either/make_success.hpp>
+#include <fcppt/either/no_error.hpp>
+#include <fcppt/either/output.hpp>
+#include <fcppt/either/sequence_error.hpp>
+#include <fcppt/either/to_exception.hpp>
+#include <fcppt/monad/chain.hpp>
+#include <fcppt/monad/do.hpp>
+#include <fcppt/monad/return.hpp>
+#include <fcppt/mpl/list/object.hpp>
+#include <fcppt/optional/assign.hpp>
+#include <fcppt/optional/copy_value.hpp>
+#include <fcppt/optional/deref.hpp>
+#include <fcppt/optional/from_pointer.hpp>
+#include <fcppt/optional/make.hpp>
+#include <fcppt/optional/maybe_void_multi.hpp>
+#include <fcppt/optional/nothing.hpp>
+#include <fcppt/optional/output.hpp>
+#include <fcppt/optional/reference.hpp>
+#include <fcppt/optional/to_container.hpp>
+#include <fcppt/optional/to_exception.hpp>
+#include <fcppt/optional/to_pointer.hpp>
+#include <fcppt/variant/current_type_name.hpp>
+#include <fcppt/variant/dynamic_cast.hpp>
+#include <fcppt/variant/dynamic_cast_types.hpp>
+#include <fcppt/variant/from_list.hpp>
+#include <fcppt/variant/get_unsafe.hpp>
+#include <fcppt/variant/output.hpp>
+#include <fcppt/variant/to_optional_ref.hpp>
+#include <fcppt/variant/type_info.hpp>
 #include <fcppt/either/apply.hpp>
 #include <fcppt/either/bind.hpp>
 #include <fcppt/either/failure_opt.hpp>
@@ -51,6 +89,10 @@
 #include <cstddef>
 #include <deque>
 #include <list>
+#include <memory>
+#include <ostream>
+#include <sstream>
+#include <typeinfo>
 #include <initializer_list>
 #include <optional>
 #include <string>
@@ -109,6 +151,7 @@ struct val
   friend bool operator==(val const &a, val const &b) { return a.v() == b.v(); }
   friend bool operator!=(val const &a, val const &b) { return a.v() != b.v(); }
   friend bool operator<(val const &a, val const &b) { return a.v() < b.v(); }
+  friend std::ostream &operator<<(std::ostream &s, val const &a) { return s << a.v(); }
 };
 
 using A = val<0>;
@@ -313,6 +356,12 @@ struct io<bool>
     return c == 't';
   }
   static std::string sh(bool const b) { return b ? "t" : "f"; }
+};
+
+template <>
+struct io<fcppt::either::no_error>
+{
+  static std::string sh(fcppt::either::no_error const &) { return "u"; }
 };
 
 template <>
@@ -581,6 +630,463 @@ using oC = opt<C>;
 using eA = eith<E, A>;
 using eB = eith<E, B>;
 using eC = eith<E, C>;
+
+
+// ------------------------------------------------------------------ the rest of the public API
+// objects that references / pointers designate: three cells, named by their index
+struct cells3
+{
+  std::vector<A> c;
+  explicit cells3(std::string const &s)
+  {
+    char const *p = s.c_str();
+    for (int i = 0; i < 3; ++i)
+      c.push_back(io<A>::rd(p));
+    if (*p != '\0')
+      throw bad_op{};
+  }
+  // `&i` -> cell i
+  A &at(std::string const &s, std::size_t const pos)
+  {
+    if (s.size() != pos + 2 || s[pos] != '&' || s[pos + 1] < '0' || s[pos + 1] > '2')
+      throw bad_op{};
+    return c[static_cast<std::size_t>(s[pos + 1] - '0')];
+  }
+  [[nodiscard]] std::string name(A const *const a) const
+  {
+    for (std::size_t i = 0; i < c.size(); ++i)
+      if (a == &c[i])
+        return "&" + std::to_string(i);
+    return "&?";
+  }
+  // every cell gets another value: a copy made before is unaffected, a reference sees it
+  void bump()
+  {
+    for (A &a : c)
+      a = A{(a.v() + 1) % 3};
+  }
+};
+
+template <typename Ref>
+fcppt::optional::reference<Ref> opt_ref(cells3 &cs, std::string const &s)
+{
+  if (s == "N")
+    return fcppt::optional::reference<Ref>{};
+  if (s.empty() || s[0] != 'J')
+    throw bad_op{};
+  return fcppt::optional::reference<Ref>{fcppt::reference<Ref>{cs.at(s, 1)}};
+}
+
+// a small class hierarchy for variant::dynamic_cast_: d1 and d3 derive from base, d2 from d1
+struct dbase
+{
+  dbase() = default;
+  dbase(dbase const &) = delete;
+  dbase &operator=(dbase const &) = delete;
+  virtual ~dbase() = default;
+};
+struct d1 : dbase
+{
+};
+struct d2 : d1
+{
+};
+struct d3 : dbase
+{
+};
+
+template <typename T>
+char dyn_letter()
+{
+  using U = std::remove_cv_t<T>;
+  return std::is_same_v<U, d1> ? '1' : std::is_same_v<U, d2> ? '2' : '3';
+}
+
+template <typename Base, typename... Ts>
+std::string dyn_cast_op(Base &b)
+{
+  using types = fcppt::mpl::list::object<Ts...>;
+  using variant_type = fcppt::variant::from_list<fcppt::variant::dynamic_cast_types<types>>;
+  fcppt::optional::object<variant_type> const r{fcppt::variant::dynamic_cast_<types, fcppt::cast::dynamic_fun>(b)};
+  if (!r.has_value())
+    return "N";
+  return "J" + std::to_string(r.get_unsafe().type_index()) + ":" +
+         std::visit(
+             [&b](auto const &ref) -> std::string
+             {
+               using T = typename std::remove_cvref_t<decltype(ref)>::type;
+               return std::string(1, dyn_letter<T>()) +
+                      (static_cast<dbase const *>(&ref.get()) == static_cast<dbase const *>(&b) ? "=obj" : "=other");
+             },
+             r.get_unsafe().impl());
+}
+
+template <typename Base>
+std::string dyn_cast_list(std::string const &l, Base &b)
+{
+  if (l == "1")
+    return dyn_cast_op<Base, d1>(b);
+  if (l == "2")
+    return dyn_cast_op<Base, d2>(b);
+  if (l == "12")
+    return dyn_cast_op<Base, d1, d2>(b);
+  if (l == "21")
+    return dyn_cast_op<Base, d2, d1>(b);
+  if (l == "32")
+    return dyn_cast_op<Base, d3, d2>(b);
+  if (l == "123")
+    return dyn_cast_op<Base, d1, d2, d3>(b);
+  if (l == "231")
+    return dyn_cast_op<Base, d2, d3, d1>(b);
+  if (l == "321")
+    return dyn_cast_op<Base, d3, d2, d1>(b);
+  throw bad_op{};
+}
+
+using err = fcppt::either::error<E>;
+
+std::string op2(std::vector<std::string> const &t)
+{
+  std::string const &o = t[0];
+  std::size_t const n = t.size();
+  namespace fo = fcppt::optional;
+  namespace fe = fcppt::either;
+  namespace fv = fcppt::variant;
+
+  // ---------------- optional
+  if (o == "o.to_cont" && n == 3)
+    return cat1(t[1], tok<oA>(t[2]), [&](auto &&x) -> std::vector<A> { return fo::to_container<std::vector<A>>(FWD(x)); });
+  if (o == "o.copy_value" && n == 4)
+  {
+    cells3 cs{t[3]};
+    oA r{};
+    if (t[1] == "L")
+      r = fo::copy_value(opt_ref<A>(cs, t[2]));
+    else if (t[1] == "C")
+      r = fo::copy_value(opt_ref<A const>(cs, t[2]));
+    else
+      throw bad_op{};
+    cs.bump();
+    return show(r);
+  }
+  if (o == "o.deref" && n == 4)
+  {
+    // p: optional<A *>, i: optional<vector<A>::iterator>, both pointing at a cell
+    cells3 cs{t[3]};
+    auto const fin = [&cs](fo::reference<A> const &r) -> std::string
+    {
+      cs.bump();
+      return r.has_value() ? "J" + cs.name(&r.get_unsafe().get()) + "=" + show(r.get_unsafe().get()) : std::string{"N"};
+    };
+    if (t[1] == "p")
+    {
+      opt<A *> const src{t[2] == "N" ? opt<A *>{} : opt<A *>{&opt_ref<A>(cs, t[2]).get_unsafe().get()}};
+      return fin(fo::deref(src));
+    }
+    if (t[1] == "i")
+    {
+      using it = std::vector<A>::iterator;
+      opt<it> const src{t[2] == "N" ? opt<it>{} : opt<it>{cs.c.begin() + (&opt_ref<A>(cs, t[2]).get_unsafe().get() - cs.c.data())}};
+      return fin(fo::deref(src));
+    }
+    throw bad_op{};
+  }
+  if (o == "o.deref_up" && n == 2)
+  {
+    // optional<unique_ptr<A>>: the reference designates the object the pointer owns
+    oA const v{tok<oA>(t[1])};
+    using up = std::unique_ptr<A>;
+    opt<up> const src{v.has_value() ? opt<up>{std::make_unique<A>(v.get_unsafe())} : opt<up>{}};
+    fo::reference<A> const r{fo::deref(src)};
+    if (!r.has_value())
+      return "N";
+    return std::string{&r.get_unsafe().get() == src.get_unsafe().get() ? "J&u=" : "J&?="} + show(r.get_unsafe().get());
+  }
+  if (o == "o.mvm1" && n == 3)
+    return cat1(t[1], tok<oA>(t[2]), [&](auto &&x) -> std::string
+                {
+                  fo::maybe_void_multi([](A a) { lg("t", {a.v()}); }, FWD(x));
+                  return "u";
+                });
+  if (o == "o.mvm2" && n == 4)
+    return cat2(t[1], tok<oA>(t[2]), tok<oB>(t[3]), [&](auto &&x, auto &&y) -> std::string
+                {
+                  fo::maybe_void_multi([](A a, B b) { lg("t", {a.v(), b.v()}); }, FWD(x), FWD(y));
+                  return "u";
+                });
+  if (o == "o.mvm3" && n == 5)
+    return cat3(t[1], tok<oA>(t[2]), tok<oB>(t[3]), tok<oC>(t[4]), [&](auto &&x, auto &&y, auto &&z) -> std::string
+                {
+                  fo::maybe_void_multi([](A a, B b, C c) { lg("t", {a.v(), b.v(), c.v()}); }, FWD(x), FWD(y), FWD(z));
+                  return "u";
+                });
+  if (o == "o.assign" && n == 3)
+  {
+    // assign only accepts an rvalue argument (its requires-clause compares Element with remove_cv_t<Arg>, and Arg is a
+    // reference type for lvalues)
+    oA x{tok<oA>(t[1])};
+    A &r{fo::assign(x, tok<A>(t[2]))};
+    return show(x) + " " + show(r) + (x.has_value() && &r == &x.get_unsafe() ? " in" : " other");
+  }
+  if (o == "o.set" && n == 3)
+  {
+    oA x{tok<oA>(t[1])};
+    if (!x.has_value())
+      throw bad_op{}; // precondition of get_unsafe
+    x.get_unsafe() = tok<A>(t[2]);
+    return show(x);
+  }
+  if (o == "o.from_ptr" && n == 3)
+  {
+    cells3 cs{t[2]};
+    A *const p{t[1] == "P-" ? nullptr : (t[1].size() == 3 && t[1][0] == 'P') ? &cs.at(t[1], 1) : throw bad_op{}};
+    fo::reference<A> const r{fo::from_pointer(p)};
+    A const *const pc{p};
+    fo::reference<A const> const rc{fo::from_pointer(pc)};
+    if (r.has_value() != rc.has_value() || (r.has_value() && &r.get_unsafe().get() != &rc.get_unsafe().get()))
+      return "CONST-DIFFERS";
+    return r.has_value() ? "J" + cs.name(&r.get_unsafe().get()) : std::string{"N"};
+  }
+  if (o == "o.to_ptr" && n == 3)
+  {
+    cells3 cs{t[2]};
+    A *const p{fo::to_pointer(opt_ref<A>(cs, t[1]))};
+    A const *const pc{fo::to_pointer(opt_ref<A const>(cs, t[1]))};
+    if (p != pc)
+      return "CONST-DIFFERS";
+    return p == nullptr ? std::string{"P-"} : "P" + cs.name(p);
+  }
+  if (o == "o.to_exc" && n == 3)
+    return cat1(t[1], tok<oA>(t[2]), [&](auto &&x) -> A
+                {
+                  return fo::to_exception(FWD(x), []
+                                          {
+                                            lg("m", {});
+                                            return E2{};
+                                          });
+                });
+  if (o == "o.make" && n == 3)
+    return cat1(t[1], tok<A>(t[2]), [&](auto &&x) -> oA { return fo::make(FWD(x)); });
+  if (o == "o.out" && n == 2)
+  {
+    std::ostringstream s;
+    s << tok<oA>(t[1]);
+    return s.str();
+  }
+  if (o == "o.nothing" && n == 1)
+  {
+    oA const x = fo::nothing{};
+    return show(x);
+  }
+
+  // ---------------- either
+  if (o == "e.cmp" && n == 3)
+  {
+    eA const a{tok<eA>(t[1])}, b{tok<eA>(t[2])};
+    return "[" + show(a == b) + show(a != b) + "]";
+  }
+  if (o == "e.cmp.same" && n == 2)
+  {
+    eA const a{tok<eA>(t[1])};
+    return "[" + show(a == a) + show(a != a) + "]";
+  }
+  if (o == "e.construct" && n == 4)
+  {
+    bool const b{tok<bool>(t[1])};
+    std::optional<A> const sv{tokx<A>(t[2])};
+    std::optional<E> const fv_{tokx<E>(t[3])};
+    return show(fe::construct(b, thunk<A>("s", sv), thunk<E>("f", fv_)));
+  }
+  if (o == "e.err_from_opt" && n == 3)
+    return cat1(t[1], tok<opt<E>>(t[2]), [&](auto &&x) -> err { return fe::error_from_optional(FWD(x)); });
+  if (o == "e.mk_fail" && n == 3)
+    return cat1(t[1], tok<E>(t[2]), [&](auto &&x) -> eA { return fe::make_failure<A>(FWD(x)); });
+  if (o == "e.mk_succ" && n == 3)
+    return cat1(t[1], tok<A>(t[2]), [&](auto &&x) -> eA { return fe::make_success<E>(FWD(x)); });
+  if (o == "e.out" && n == 2)
+  {
+    std::ostringstream s;
+    s << tok<eA>(t[1]);
+    return s.str();
+  }
+  if (o == "e.seq_err" && n == 4)
+  {
+    // the function's table: `u` = success (no_error), a digit = that failure, `X` = throws
+    std::string const &tb = t[3];
+    if (tb.size() != 3 || tb.find_first_not_of("u012X") != std::string::npos)
+      throw bad_op{};
+    return cat1(t[1], tok<std::vector<A>>(t[2]), [&](auto &&x) -> err
+                {
+                  return fe::sequence_error(FWD(x), [&tb](A a) -> err
+                                            {
+                                              lg("f", {a.v()});
+                                              char const c{tb[static_cast<std::size_t>(ix(a.v()))]};
+                                              if (c == 'X')
+                                                throw E2{};
+                                              return c == 'u' ? err{fe::no_error{}} : err{E{c - '0'}};
+                                            });
+                });
+  }
+  if (o == "e.to_exc" && n == 3)
+    return cat1(t[1], tok<eA>(t[2]), [&](auto &&x) -> A
+                {
+                  return fe::to_exception(FWD(x), [](E f)
+                                          {
+                                            lg("m", {f.v()});
+                                            return E1{f.v()};
+                                          });
+                });
+  if (o == "e.set" && n == 3)
+  {
+    eA x{tok<eA>(t[1])};
+    if (x.has_success())
+      x.get_success_unsafe() = tok<A>(t[2]);
+    else
+      x.get_failure_unsafe() = tok<E>(t[2]);
+    return show(x);
+  }
+
+  // ---------------- variant
+  if (o == "v.to_opt_ref" && n == 5)
+  {
+    // L: to_optional_ref<T>(variant &), written through afterwards; C: to_optional_ref<T const>(variant const &)
+    // (to_optional_ref<T const> on a non-const variant does not compile: make_ref yields reference<T>)
+    std::string const &c = t[1];
+    var3 x{tok<var3>(t[3])};
+    auto const go = [&]<typename T>(T const &nv) -> std::string
+    {
+      auto const fin = [&x](auto const &r) -> std::string
+      {
+        if (!r.has_value())
+          return "N - " + show(x);
+        auto const &held{r.get_unsafe().get()};
+        bool const in{std::visit([&held](auto const &a) -> bool { return static_cast<void const *>(&a) == static_cast<void const *>(&held); }, x.impl())};
+        std::string const first{"J" + show(held) + (in ? " in " : " other ")};
+        return first + show(x);
+      };
+      if (c == "L")
+      {
+        fo::reference<T> const r{fv::to_optional_ref<T>(x)};
+        if (r.has_value())
+          r.get_unsafe().get() = nv;
+        return fin(r);
+      }
+      if (c == "C")
+        return fin(fv::to_optional_ref<T const>(std::as_const(x)));
+      throw bad_op{};
+    };
+    if (t[2] == "0")
+      return go(tok<A>(t[4]));
+    if (t[2] == "1")
+      return go(tok<B>(t[4]));
+    if (t[2] == "2")
+      return go(tok<C>(t[4]));
+    throw bad_op{};
+  }
+  if (o == "v.get" && n == 3)
+  {
+    // free get_unsafe<T> on the held type (its precondition), read through the const and written through the non-const overload
+    var3 x{tok<var3>(t[1])};
+    auto const go = [&]<typename T>(T const &nv) -> std::string
+    {
+      std::string const r{show(fv::get_unsafe<T>(std::as_const(x)))};
+      fv::get_unsafe<T>(x) = nv;
+      return r + " " + show(x);
+    };
+    switch (x.type_index())
+    {
+    case 0: return go(tok<A>(t[2]));
+    case 1: return go(tok<B>(t[2]));
+    case 2: return go(tok<C>(t[2]));
+    default: throw bad_op{};
+    }
+  }
+  if (o == "v.out" && n == 2)
+  {
+    std::ostringstream s;
+    s << tok<var3>(t[1]);
+    return s.str();
+  }
+  if (o == "v.tinfo" && n == 2)
+  {
+    var3 const x{tok<var3>(t[1])};
+    std::type_info const &ti{fv::type_info(x)};
+    std::string const nm{fv::current_type_name(x)};
+    int const byinfo{ti == typeid(A) ? 0 : ti == typeid(B) ? 1 : ti == typeid(C) ? 2 : 9};
+    int const byname{nm == fcppt::type_name_from_index(typeid(A))   ? 0
+                     : nm == fcppt::type_name_from_index(typeid(B)) ? 1
+                     : nm == fcppt::type_name_from_index(typeid(C)) ? 2
+                                                                     : 9};
+    return std::to_string(byinfo) + std::to_string(byname) + show(x.is_invalid());
+  }
+  if (o == "v.dyn" && n == 4)
+  {
+    // <K | C> <type list> <dynamic type: 0 base, 1 d1, 2 d2 (: d1), 3 d3>
+    dbase b0;
+    d1 b1;
+    d2 b2;
+    d3 b3;
+    dbase &b{t[3] == "0" ? b0 : t[3] == "1" ? static_cast<dbase &>(b1) : t[3] == "2" ? static_cast<dbase &>(b2) : t[3] == "3" ? static_cast<dbase &>(b3) : throw bad_op{}};
+    if (t[1] == "L")
+      return dyn_cast_list<dbase>(t[2], b);
+    if (t[1] == "C")
+    {
+      // the const flavour: list of const types, const base
+      dbase const &cb{b};
+      if (t[2] == "12")
+        return dyn_cast_op<dbase const, d1 const, d2 const>(cb);
+      if (t[2] == "21")
+        return dyn_cast_op<dbase const, d2 const, d1 const>(cb);
+      throw bad_op{};
+    }
+    throw bad_op{};
+  }
+
+  // ---------------- monad
+  if (o == "m.chain2.o" && n == 5)
+  {
+    auto const f = tbl<oB>(3, t[3]);
+    auto const g = tbl<oC>(3, t[4]);
+    return cat1(t[1], tok<oA>(t[2]), [&](auto &&x) -> oC { return fcppt::monad::chain(FWD(x), fn1<oB, A>("f", f), fn1<oC, B>("g", g)); });
+  }
+  if (o == "m.chain2.e" && n == 5)
+  {
+    auto const f = tbl<eB>(3, t[3]);
+    auto const g = tbl<eC>(3, t[4]);
+    return cat1(t[1], tok<eA>(t[2]), [&](auto &&x) -> eC { return fcppt::monad::chain(FWD(x), fn1<eB, A>("f", f), fn1<eC, B>("g", g)); });
+  }
+  if (o == "m.chain0.o" && n == 3)
+    return cat1(t[1], tok<oA>(t[2]), [&](auto &&x) -> oA { return fcppt::monad::chain(FWD(x)); });
+  if (o == "m.do3.o" && n == 5)
+  {
+    auto const f = tbl<oB>(3, t[3]);
+    auto const g = tbl<oC>(9, t[4]);
+    return cat1(t[1], tok<oA>(t[2]), [&](auto &&x) -> oC
+                {
+                  return fcppt::monad::do_(
+                      FWD(x), [&f](A const &a) -> oB { return fn1<oB, A>("f", f)(a); },
+                      [&g](A const &a, B const &b) -> oC { return fn2<oC, A, B>("g", g)(a, b); });
+                });
+  }
+  if (o == "m.do3.e" && n == 5)
+  {
+    auto const f = tbl<eB>(3, t[3]);
+    auto const g = tbl<eC>(9, t[4]);
+    return cat1(t[1], tok<eA>(t[2]), [&](auto &&x) -> eC
+                {
+                  return fcppt::monad::do_(
+                      FWD(x), [&f](A const &a) -> eB { return fn1<eB, A>("f", f)(a); },
+                      [&g](A const &a, B const &b) -> eC { return fn2<eC, A, B>("g", g)(a, b); });
+                });
+  }
+  // monad::return_ only accepts rvalues (instance<>::return_ requires move_constructible<Value> with Value deduced as a
+  // reference type for lvalues)
+  if (o == "m.ret.o" && n == 2)
+    return show(fcppt::monad::return_<opt<C>>(tok<A>(t[1])));
+  if (o == "m.ret.e" && n == 2)
+    return show(fcppt::monad::return_<eith<E, C>>(tok<A>(t[1])));
+  throw bad_op{};
+}
 
 // ------------------------------------------------------------------ operations
 std::string op(std::vector<std::string> const &t)
@@ -1138,7 +1644,7 @@ std::string op(std::vector<std::string> const &t)
                       FWD(x), FWD(y), FWD(z));
                 });
   }
-  throw bad_op{};
+  return op2(t);
 }
 
 std::string handle1(std::vector<std::string> const &t)
